@@ -43,6 +43,15 @@ MUTATIONS = {
     'nonconvergence-not-raised': (1, [("        if status == SolutionStatus.FAILED.value and failures == 'raise':", "        if status == SolutionStatus.FAILED.value and failures == 'never':")]),
     'codegen-keyerror': (1, [("variables_to_numbers[match[1]]", "variables_to_numbers[match[2]]")]),
     'engine-crash-wild-index': (1, [("match[2].replace('t', 'index')", "match[2].replace('t', 'index*10000000')")]),
+    # regressions of the four repairs (need a base tree that has c07-fix1..4: FSIC_BASE=<copy> or /repo once applied)
+    'revert-fix1-both-sites': (1, [("[self.names.index(x) + 1 for x in self.check]", "[self.names.index(x) for x in self.check]")]),
+    'revert-fix2': (1, [("  error_code = 0\n\n  do iteration = 1, max_iter\n", "  do iteration = 1, max_iter\n")]),
+    'revert-fix3-solve-dispatch': (1, [("            elif error_code in (11, 12, 13, 14):\n                raise IndexError(",
+                                        "            elif error_code in (111, 112, 113, 114):\n                raise IndexError(")]),
+    'revert-fix3-upfront-check': (1, [("        if t_position - self.lags < 0 or t_position + self.leads >= len(self.span):\n            raise IndexError(",
+                                       "        if False:\n            raise IndexError(")]),
+    'revert-fix4': (1, [("     else if(.not. (error_code == numerical_error_skip .and. error_control == error_control_skip)) then",
+                         "     else if(error_control == error_control_raise) then")]),
     # harmless: must stay exit 0
     'refactor-rename-reorder': (0, [("variables_to_numbers", "numbering"),
                                     ("    endogenous = [s.name for s in symbols if s.type == Type.ENDOGENOUS]\n    exogenous  = [s.name for s in symbols if s.type == Type.EXOGENOUS]\n",
